@@ -157,19 +157,23 @@ def run(ctx):
                 ctx.replayed()
     # ---- ERA5: log10 densities with missing values on the default 30 x 24 grid and on explicit grids
     for rep in range(6 if ctx.quick else 60):
-        nf, nd, explicit = (30, 24, False) if rep % 2 == 0 else (3, 4, True)
+        nf, nd, explicit = (30, 24, False) if rep % 4 in (0, 2, 3) else (3, 4, True)
         m = np.array([[ctx.rng.choice((-3.0, -1.0, 0.0, 1.0, np.nan)) for _ in range(nd)] for _ in range(nf)])
         raw = xr.Dataset({"d2fd": (("time", "frequency", "direction"), np.stack([m, m - 1.0]))},
                          coords={"time": np.datetime64("2021-01-01") + np.arange(2) * np.timedelta64(1, "h"),
                                  "frequency": np.arange(1, nf + 1), "direction": np.arange(1, nd + 1)})
         kw = {"freqs": [0.05, 0.1, 0.2], "dirs": [187.5, 277.5, 7.5, 97.5]} if explicit else {}
+        if rep % 4 == 2:        # only the directions are the caller's (default frequencies), and the other way round
+            kw = {"dirs": [float(x) for x in np.arange(0.0, 360.0, 15.0)]}
+        elif rep % 4 == 3:
+            kw = {"freqs": [float(x) for x in np.round(0.04 * 1.08 ** np.arange(30), 6)]}
         ctx.case(("era5", rep), True)
         exp = np.nan_to_num(10.0 ** np.stack([m, m - 1.0]) * math.pi / 180.0, nan=0.0)
         try:
             out = read_dataset(raw.copy(deep=True), **kw)
             ok = "efth" in out and np.allclose(out.efth.transpose("time", "freq", "dir").values, exp, rtol=1e-12) and \
                 np.allclose(out.freq.values, kw.get("freqs", DEFAULT_FREQS)) and np.allclose(out.dir.values, kw.get("dirs", DEFAULT_DIRS))
-            if ok and not explicit:
+            if ok and not kw:
                 # default grid: native going-to 7.5, 22.5, ... -> coming-from labels
                 ok = np.allclose(out.dir.values, (np.arange(7.5, 360, 15) + 180) % 360)
             if ok:
